@@ -426,7 +426,17 @@ class IH5Dataset(IH5Node):
         if self._cidx == self._last_idx:
             raise ValueError("Cannot copy, this node is already from latest patch!")
         # copy value from older container to current patch
-        self._files[-1][self._gpath] = self[()]
+        # (a real node in the patch hides everything older at that path, and there
+        # could be a virtual node with attribute changes already -> keep attributes)
+        attrs = {k: attr_value_for_copy(v) for k, v in self.attrs.items()}
+        raw_old = self._files[self._cidx][self._gpath]
+        if self._gpath in self._files[-1]:
+            del self._files[-1][self._gpath]  # virtual node (just attribute changes)
+        val = self[()]
+        kwargs = {} if isinstance(val, h5py.Empty) else {"dtype": raw_old.dtype}
+        self._files[-1].create_dataset(self._gpath, data=val, **kwargs)
+        for k, v in attrs.items():
+            self._files[-1][self._gpath].attrs[k] = v
 
     # h5py-like interface
     @property
